@@ -6,6 +6,44 @@ thread's evolution inside an arbitrary interleaving.
 -/
 namespace Risor.C06
 
+/-! ### the halted branch of a poll -/
+
+/-- the three things a raised flag can do to a thread, whatever context its `eval` was
+    handed: raise the context's error, raise the pop panic, or abandon the callback frame
+    and return to its builtin; `halt`, `armed`, `id` are never touched -/
+theorem haltedT_cases (t : Thread) :
+    haltedT t = { t with st := .raising .ctx } ∨ haltedT t = { t with st := .raising .panic } ∨
+    ∃ w k fs, t.frames = (w, k) :: fs ∧ haltedT t = { t with st := .run k, frames := fs } := by
+  unfold haltedT
+  split
+  · exact Or.inl rfl
+  · exact Or.inr (Or.inl rfl)
+  · split
+    · exact Or.inl rfl
+    · rename_i w k fs h; exact Or.inr (Or.inr ⟨w, k, fs, h, rfl⟩)
+
+theorem haltedT_of_none (t : Thread) (h : detachedBy t.frames = none) :
+    haltedT t = { t with st := .raising .ctx } := by
+  unfold haltedT; rw [h]
+
+theorem haltedT_flags (t : Thread) :
+    (haltedT t).halt = t.halt ∧ (haltedT t).armed = t.armed ∧ (haltedT t).id = t.id := by
+  rcases haltedT_cases t with h | h | ⟨w, k, fs, _, h⟩ <;> rw [h] <;> simp
+
+/-- every instruction polls: with the flag raised the step of running code IS `haltedT`
+    (the only step without a poll is falling off the end of the main code) -/
+theorem stepT_halted (c : Bool) (t : Thread) (p : Prog) (hh : t.halt = true) (hr : t.st = .run p)
+    (hp : p ≠ .done ∨ t.frames ≠ []) : stepT c t = (haltedT t, none) := by
+  obtain ⟨id, halt, armed, st, frames⟩ := t
+  simp only at hh hr hp
+  subst hh hr
+  cases p with
+  | done =>
+    cases frames with
+    | nil => simp at hp
+    | cons f fs => simp [stepT]
+  | _ => simp [stepT]
+
 /-! ### one step -/
 
 theorem stepT_flags (c : Bool) (t : Thread) :
@@ -24,7 +62,8 @@ theorem stepT_flags (c : Bool) (t : Thread) :
     · simp [stepT]
     · cases h : primEffect pr <;> simp [stepT, h]
   | run p =>
-    cases p <;> cases halt <;> cases frames <;> simp [stepT]
+    have hf := haltedT_flags
+    cases p <;> cases halt <;> cases frames <;> simp [stepT, hf]
 
 theorem stepT_halt (c : Bool) (t : Thread) : (stepT c t).1.halt = t.halt := (stepT_flags c t).1
 theorem stepT_armed (c : Bool) (t : Thread) : (stepT c t).1.armed = t.armed := (stepT_flags c t).2.1
@@ -47,6 +86,14 @@ theorem size_pos (p : Prog) : 2 ≤ size p := by
 theorem afterPrim_size (pr : Prim) (k : Prog) : size (afterPrim pr k) ≤ 1 + size k := by
   cases pr <;> simp [afterPrim, size] <;> omega
 
+/-- whatever the halted branch does, what is left is at most one unwinding step plus the
+    enclosing frames -/
+theorem haltedT_pot (t : Thread) : potT (haltedT t) ≤ 1 + potFrames t.frames := by
+  rcases haltedT_cases t with h | h | ⟨w, k, fs, hf, h⟩
+  · rw [h]; simp [potT, potSt]
+  · rw [h]; simp [potT, potSt]
+  · rw [h, hf]; simp [potT, potSt, potFrames]; omega
+
 /-- Once the context has fired, every step of a thread that is neither finished nor in an
     unhalted compute loop strictly decreases its potential. -/
 theorem step_decr (t : Thread) (hf : t.st.isFin = false)
@@ -68,30 +115,43 @@ theorem step_decr (t : Thread) (hf : t.st.isFin = false)
     · have := size_pos k
       simp [stepT, h, potT, potSt]; omega
   | run p =>
-    cases p with
-    | done =>
-      cases frames with
-      | nil => simp [stepT, potT, potSt, potFrames, size]
-      | cons f fs =>
-        obtain ⟨w, k⟩ := f
-        cases halt <;> simp [stepT, potT, potSt, potFrames, size] <;> omega
-    | compute k =>
-      have := size_pos k
-      cases halt <;> simp [stepT, potT, potSt, size] <;> omega
-    | spin =>
-      cases halt
-      · exact absurd ⟨rfl, rfl⟩ hs
-      · simp [stepT, potT, potSt, size]
-    | block pr k =>
-      have := size_pos k
-      cases halt <;> simp [stepT, potT, potSt, size] <;> omega
-    | cb w body k =>
-      have := size_pos k
-      have := size_pos body
-      cases halt <;> simp [stepT, potT, potSt, potFrames, size] <;> omega
-    | spawn i body k =>
-      have := size_pos k
-      cases halt <;> simp [stepT, potT, potSt, size] <;> omega
+    cases halt with
+    | true =>
+      by_cases hp : p ≠ .done ∨ frames ≠ []
+      · rw [stepT_halted true _ p rfl rfl hp]
+        show potT (haltedT _) < _
+        have h1 := haltedT_pot { id := id, halt := true, armed := armed, st := .run p, frames := frames }
+        have h2 := size_pos p
+        simp only [potT, potSt] at h1 ⊢
+        omega
+      · have hp1 : p = .done := by
+          cases p <;> simp_all
+        have hp2 : frames = [] := by
+          cases frames <;> simp_all
+        subst hp1 hp2
+        simp [stepT, potT, potSt, potFrames, size]
+    | false =>
+      cases p with
+      | done =>
+        cases frames with
+        | nil => simp [stepT, potT, potSt, potFrames, size]
+        | cons f fs =>
+          obtain ⟨w, k⟩ := f
+          simp [stepT, potT, potSt, potFrames, size]; omega
+      | compute k =>
+        have := size_pos k
+        simp [stepT, potT, potSt, size]
+      | spin => exact absurd ⟨rfl, rfl⟩ hs
+      | block pr k =>
+        have := size_pos k
+        simp [stepT, potT, potSt, size]
+      | cb w body k =>
+        have := size_pos k
+        have := size_pos body
+        simp [stepT, potT, potSt, potFrames, size]; omega
+      | spawn i body k =>
+        have := size_pos k
+        simp [stepT, potT, potSt, size]
 
 /-! ### own steps -/
 
@@ -393,6 +453,38 @@ def noTry : List (Wrap × Prog) → Bool
   | [] => true
   | (w, _) :: fs => w != .try_ && noTry fs
 
+/-- a predicate that holds of the continuation of every enclosing frame holds of whatever a
+    halted poll leaves to execute -/
+theorem haltedT_allK (P : Prog → Bool) (t : Thread) (h : allK P t.frames = true) :
+    (match (haltedT t).st with
+      | .run p => P p
+      | .blocked _ k => P k
+      | _ => true) = true ∧ allK P (haltedT t).frames = true := by
+  rcases haltedT_cases t with e | e | ⟨w, k, fs, hf, e⟩
+  · rw [e]; exact ⟨rfl, h⟩
+  · rw [e]; exact ⟨rfl, h⟩
+  · rw [e]; rw [hf] at h; simp [allK] at h; exact ⟨h.1, h.2⟩
+
+/-- a halted step of running code: nothing is spawned, and a frame predicate is kept -/
+theorem stepT_halted_allK (P : Prog → Bool) (c : Bool) (t : Thread) (p : Prog) (hh : t.halt = true)
+    (hr : t.st = .run p) (h : allK P t.frames = true) :
+    ((match (stepT c t).1.st with
+      | .run p => P p
+      | .blocked _ k => P k
+      | _ => true) && allK P (stepT c t).1.frames) = true ∧ (stepT c t).2 = none := by
+  by_cases hp : p ≠ .done ∨ t.frames ≠ []
+  · rw [stepT_halted c t p hh hr hp]
+    have := haltedT_allK P t h
+    simp [this.1, this.2]
+  · have hp1 : p = .done := by
+      cases p <;> simp_all
+    have hp2 : t.frames = [] := by
+      cases hf : t.frames <;> simp_all
+    obtain ⟨id, halt, armed, st, frames⟩ := t
+    simp only at hh hr hp2
+    subst hh hr hp1 hp2
+    simp [stepT, allK]
+
 /-- thread-level form of the guards: nothing the thread can still execute contains a loop -/
 def noSpinT (t : Thread) : Bool :=
   (match t.st with
@@ -431,19 +523,27 @@ theorem noSpinT_step (c : Bool) (t : Thread) (h : noSpinT t = true) :
     · simp [stepT, noSpinT, allK, h]
     · cases hp : primEffect pr <;> simp [stepT, hp, noSpinT, allK, h, noSpin_afterPrim]
   | run p =>
-    cases p with
-    | done =>
-      cases frames with
-      | nil => simp [stepT, noSpinT, allK]
-      | cons f fs =>
-        obtain ⟨w, k⟩ := f
-        simp [noSpinT, noSpin, allK] at h
-        cases halt <;> simp [stepT, noSpinT, allK, h]
-    | spin => simp [noSpinT, noSpin, allK] at h
-    | compute k => simp [noSpinT, noSpin, allK] at h; cases halt <;> simp [stepT, noSpinT, allK, h]
-    | block pr k => simp [noSpinT, noSpin, allK] at h; cases halt <;> simp [stepT, noSpinT, allK, h]
-    | cb w body k => simp [noSpinT, noSpin, allK] at h; cases halt <;> simp [stepT, noSpinT, allK, h]
-    | spawn i body k => simp [noSpinT, noSpin, allK] at h; cases halt <;> simp [stepT, noSpinT, allK, h]
+    cases halt with
+    | true =>
+      have hk : allK noSpin frames = true := by
+        simp [noSpinT] at h; exact h.2
+      have := stepT_halted_allK noSpin c { id := id, halt := true, armed := armed, st := .run p, frames := frames } p rfl rfl hk
+      refine ⟨this.1, ?_⟩
+      rw [this.2]; simp
+    | false =>
+      cases p with
+      | done =>
+        cases frames with
+        | nil => simp [stepT, noSpinT, allK]
+        | cons f fs =>
+          obtain ⟨w, k⟩ := f
+          simp [noSpinT, noSpin, allK] at h
+          simp [stepT, noSpinT, allK, h]
+      | spin => simp [noSpinT, noSpin, allK] at h
+      | compute k => simp [noSpinT, noSpin, allK] at h; simp [stepT, noSpinT, allK, h]
+      | block pr k => simp [noSpinT, noSpin, allK] at h; simp [stepT, noSpinT, allK, h]
+      | cb w body k => simp [noSpinT, noSpin, allK] at h; simp [stepT, noSpinT, allK, h]
+      | spawn i body k => simp [noSpinT, noSpin, allK] at h; simp [stepT, noSpinT, allK, h]
 
 theorem noCloneSpinT_step (c : Bool) (t : Thread) (h : noCloneSpinT t = true) :
     noCloneSpinT (stepT c t).1 = true ∧ ∀ b, (stepT c t).2 = some b → noSpin b.2 = true := by
@@ -463,19 +563,27 @@ theorem noCloneSpinT_step (c : Bool) (t : Thread) (h : noCloneSpinT t = true) :
     · simp [stepT, noCloneSpinT, allK, h]
     · cases hp : primEffect pr <;> simp [stepT, hp, noCloneSpinT, allK, h, noCloneSpin_afterPrim]
   | run p =>
-    cases p with
-    | done =>
-      cases frames with
-      | nil => simp [stepT, noCloneSpinT, allK]
-      | cons f fs =>
-        obtain ⟨w, k⟩ := f
-        simp [noCloneSpinT, noCloneSpin, allK] at h
-        cases halt <;> simp [stepT, noCloneSpinT, allK, h]
-    | spin => cases halt <;> simpa [stepT, noCloneSpinT, noCloneSpin] using h
-    | compute k => simp [noCloneSpinT, noCloneSpin, allK] at h; cases halt <;> simp [stepT, noCloneSpinT, allK, h]
-    | block pr k => simp [noCloneSpinT, noCloneSpin, allK] at h; cases halt <;> simp [stepT, noCloneSpinT, allK, h]
-    | cb w body k => simp [noCloneSpinT, noCloneSpin, allK] at h; cases halt <;> simp [stepT, noCloneSpinT, allK, h]
-    | spawn i body k => simp [noCloneSpinT, noCloneSpin, allK] at h; cases halt <;> simp [stepT, noCloneSpinT, allK, h]
+    cases halt with
+    | true =>
+      have hk : allK noCloneSpin frames = true := by
+        simp [noCloneSpinT] at h; exact h.2
+      have := stepT_halted_allK noCloneSpin c { id := id, halt := true, armed := armed, st := .run p, frames := frames } p rfl rfl hk
+      refine ⟨this.1, ?_⟩
+      rw [this.2]; simp
+    | false =>
+      cases p with
+      | done =>
+        cases frames with
+        | nil => simp [stepT, noCloneSpinT, allK]
+        | cons f fs =>
+          obtain ⟨w, k⟩ := f
+          simp [noCloneSpinT, noCloneSpin, allK] at h
+          simp [stepT, noCloneSpinT, allK, h]
+      | spin => simpa [stepT, noCloneSpinT, noCloneSpin] using h
+      | compute k => simp [noCloneSpinT, noCloneSpin, allK] at h; simp [stepT, noCloneSpinT, allK, h]
+      | block pr k => simp [noCloneSpinT, noCloneSpin, allK] at h; simp [stepT, noCloneSpinT, allK, h]
+      | cb w body k => simp [noCloneSpinT, noCloneSpin, allK] at h; simp [stepT, noCloneSpinT, allK, h]
+      | spawn i body k => simp [noCloneSpinT, noCloneSpin, allK] at h; simp [stepT, noCloneSpinT, allK, h]
 
 theorem noSpinT_fire (t : Thread) : noSpinT (fireT t) = noSpinT t := by
   unfold fireT; split <;> rfl
@@ -506,7 +614,74 @@ theorem ctxPath_step (c : Bool) (t : Thread) (h : ctxPath t = true) : ctxPath (s
       · simp [stepT, ctxPath, h]
       · simp [stepT, h, ctxPath]
     | run p =>
-      cases p <;> cases halt <;> simp_all [stepT, ctxPath, noLossy]
+      cases p <;> cases halt <;> simp_all [stepT, ctxPath, noLossy, haltedT, detachedBy]
+
+/-- thread-level form of `noDetached`: nothing the thread can still execute calls a host
+    builtin with a detached callee context, and it is not inside such a callback now -/
+def noDetT (t : Thread) : Bool :=
+  (match t.st with
+    | .run p => noDetached p
+    | .blocked _ k => noDetached k
+    | _ => true) && allK noDetached t.frames && (detachedBy t.frames).isNone
+
+theorem noDetached_afterPrim (pr : Prim) (k : Prog) : noDetached (afterPrim pr k) = noDetached k := by
+  cases pr <;> simp [afterPrim, noDetached]
+
+theorem noDetT_step (c : Bool) (t : Thread) (h : noDetT t = true) : noDetT (stepT c t).1 = true := by
+  obtain ⟨id, halt, armed, st, frames⟩ := t
+  cases st with
+  | fin e => simpa [stepT] using h
+  | raising e =>
+    cases frames with
+    | nil => simp [stepT, noDetT, allK, detachedBy]
+    | cons f fs =>
+      obtain ⟨w, k⟩ := f
+      have h' : noDetached k = true ∧ allK noDetached fs = true ∧ detachedBy fs = none := by
+        cases w with
+        | host cc b => cases cc <;> simp [noDetT, allK, detachedBy] at h <;> simp [h]
+        | _ => simp [noDetT, allK, detachedBy] at h; simp [h]
+      cases hw : wrapErr w e <;> simp [stepT, hw, noDetT, h']
+  | blocked pr k =>
+    simp [noDetT] at h
+    cases c
+    · simp [stepT, noDetT, h]
+    · cases hp : primEffect pr <;> simp [stepT, hp, noDetT, h, noDetached_afterPrim]
+  | run p =>
+    cases halt with
+    | true =>
+      simp [noDetT] at h
+      by_cases hp : p ≠ .done ∨ frames ≠ []
+      · rw [stepT_halted c _ p rfl rfl hp]
+        show noDetT (haltedT _) = true
+        rw [haltedT_of_none _ (by simpa using h.2)]
+        simp [noDetT, h]
+      · have hp1 : p = .done := by
+          cases p <;> simp_all
+        have hp2 : frames = [] := by
+          cases frames <;> simp_all
+        subst hp1 hp2
+        simp [stepT, noDetT, allK, detachedBy]
+    | false =>
+      cases p with
+      | done =>
+        cases frames with
+        | nil => simp [stepT, noDetT, allK, detachedBy]
+        | cons f fs =>
+          obtain ⟨w, k⟩ := f
+          cases w with
+          | host cc b => cases cc <;> simp [noDetT, noDetached, allK, detachedBy] at h <;> simp [stepT, noDetT, allK, h]
+          | _ => simp [noDetT, noDetached, allK, detachedBy] at h; simp [stepT, noDetT, allK, h]
+      | spin => simpa [stepT] using h
+      | compute k => simp [noDetT, noDetached] at h; simp [stepT, noDetT, h]
+      | block pr k => simp [noDetT, noDetached] at h; simp [stepT, noDetT, h]
+      | spawn i body k => simp [noDetT, noDetached] at h; simp [stepT, noDetT, h]
+      | cb w body k =>
+        cases w with
+        | host cc b => cases cc <;> simp [noDetT, noDetached] at h <;> simp [stepT, noDetT, allK, detachedBy, h]
+        | _ => simp [noDetT, noDetached] at h; simp [stepT, noDetT, allK, detachedBy, h]
+
+theorem noDetT_fire (t : Thread) : noDetT (fireT t) = noDetT t := by
+  unfold fireT; split <;> rfl
 
 theorem ctxPath_fire (t : Thread) : ctxPath (fireT t) = ctxPath t := by
   unfold fireT; split <;> rfl
